@@ -36,6 +36,17 @@ Definition dispatch (kind : string) (args : list string) : string :=
              end
     | _ => BADARGS
     end
+  else if String.eqb kind "ip4store2" then
+    (* re-completion: mode S|A (SetPayload / AppendPayload) on a header whose checksum field may already be
+       filled (a second completion of the same header, or a header taken from the wire) *)
+    match args with
+    | [_; h] => match bytes_of_tok h with
+                | Some b => let r := ip4_store_checksum b in
+                            out3 (tok_of_bytes r) "-" "-"
+                | None => BADARGS
+                end
+    | _ => BADARGS
+    end
   else if String.eqb kind "verify" then
     (* spec-only: does this byte string verify under RFC 1071 *)
     match args with
